@@ -23,7 +23,7 @@ def deephash(v, **kw):
 
 
 def hash_line(v, **kw):
-    return 'HASH ' + cfg_tok(**kw) + ' ' + ' '.join(val_tokens(v))
+    return 'HASH ' + cfg_tok(**kw) + ' ' + ' '.join(val_tokens(v, iter_sets=True))     # ordered-mode hashes follow the iteration order of sets
 
 
 def numbers_in(v, acc=None):
